@@ -47,6 +47,13 @@ def configs(tier):
         for script in (S_TWO,):
             out.append({"cluster": cluster_for(disc), "discovery": disc != "off", "producer": prod,
                         "script": script, "menu": MENU, "timeout_ms": 2000})
+    # one produce request carrying several partitions (and two topics) to one broker, in both negotiated layouts
+    same = {"topics": {"t": {"0": 1, "1": 1}, "u": {"0": 1}}}
+    for acks, disc, codec in itertools.product([1, -1], ["off", "modern", "legacy"], [None, 1]):
+        prod = {"acks": acks, "max_req_attempts": 2, "codec": codec, "batch_send": True, "batch_every_n": 3,
+                "batch_every_b": 0, "batch_every_t": 0}
+        out.append({"cluster": dict(cluster_for(disc), **same), "discovery": disc != "off", "producer": prod,
+                    "script": S_TWO + [["send", "u", None, ["c0"]]], "menu": MENU, "timeout_ms": 2000})
     return out
 
 
@@ -114,7 +121,8 @@ def persistent_configs(tier):
 RULE = ("real Producer+KafkaClient against a 2-broker virtual cluster (topic t: 2 partitions on different leaders, "
         "topic u: 1).  Configurations: acks {1,0,-1} x batched/unbatched x codec {none,gzip,snappy-shim} x attempt "
         "limit {1,2,3} x discovery {off, modern broker, legacy broker}; scripts of 2-3 sends (null/empty/70KB values, "
-        "keyed/unkeyed, unroutable topic) with cancel/stop.  Alphabet: correct reply, reply with produce error "
+        "keyed/unkeyed, unroutable topic) with cancel/stop; one request carrying three partitions of two topics to one "
+        "broker in both negotiated layouts.  Alphabet: correct reply, reply with produce error "
         "{3,5,6,7,10,19} for all or one partition, metadata error, silent broker, connection drop, refused connection, "
         "timer before pending I/O, application call before quiescence; plus sticky faults (same error / silence on "
         "every attempt, or for 1-2 attempts).  Every schedule within the deviation bound runs to quiescence.  Oracle: "
